@@ -79,6 +79,7 @@ func verifReached(label string)                         {}
 func verifBarrier(on bool)                              {}
 func verifInput(b []byte)                               {}
 func verifJoin()                                        {}
+func verifFreeze(root interface{})                      {}
 func verifPreemptBound(n int)                           {}
 func verifPoolND(on bool)                               {}
 func verifSameBacking(a, b []byte) bool                 { return cap(a) > 0 && cap(b) > 0 && &a[:cap(a)][cap(a)-1] == &b[:cap(b)][cap(b)-1] }
